@@ -25,6 +25,7 @@ The statements are FALSE of the code as it was (`coded`): one `decide`d countere
 import WntrModel.Lemmas.RegistryStepAll
 import WntrModel.Lemmas.RegistryViews
 import WntrModel.Lemmas.OrderedSetLemmas
+import WntrModel.Gen.RegistryCalls
 
 namespace Wntr.Registry
 set_option linter.unusedVariables false
@@ -532,5 +533,20 @@ theorem orderedset_no_duplicates {α : Type} [DecidableEq α] (s : OrderedSetMod
 theorem registry_oset_is_orderedset (l : List User) (u : User) :
     OSet.add l u = (OrderedSetModel.add ⟨l⟩ u).data ∧ OSet.discard l u = (OrderedSetModel.discard ⟨l⟩ u).data :=
   ⟨OSet.add_eq_model l u, OSet.discard_eq_model l u⟩
+
+/-! ### the model's bookkeeping calls are the code's (translator tie)
+
+`Gen/RegistryCalls.lean` is regenerated on every run from wntr/network/{base,model,elements}.py (python `ast`): every call of
+`add_usage` / `remove_usage` / `set_curve_type` with its site, the registry it goes to (`_node_reg` / `_pattern_reg` / `_curve_reg`),
+its key and user expressions; the typed sets each element class is added to and each registry discards from; the typed set of each
+curve type.  The model's operations read the registry of every usage call off `siteReg` and the typed sets off `nodeSet` / `linkSets`
+/ `nodeSets` / `allLinkSets` / `curveSets` / `curveSet`; `expectedUsageCalls` ... are those same tables in the translator's format.
+So releasing a pattern through the CURVE registry (the first C14 defect), a dropped or an added bookkeeping call, a changed key
+expression or a typed set that is no longer discarded breaks one of these four theorems, not only the differential run. -/
+
+theorem usage_calls_as_modelled : Gen.RegistryCalls.usageCalls = expectedUsageCalls := by decide
+theorem typed_adds_as_modelled : Gen.RegistryCalls.typedAdds = expectedTypedAdds := by decide
+theorem typed_discards_as_modelled : Gen.RegistryCalls.typedDiscards = expectedTypedDiscards := by decide
+theorem curve_type_sets_as_modelled : Gen.RegistryCalls.curveTypeSets = expectedCurveTypeSets := by decide
 
 end Wntr.Registry
